@@ -853,3 +853,11 @@ def msan(tier, seed, info):
     return dict(evaluations=evaluations, nt_hashes=nt, classes=classes, samples=[dict(target=r["target"], files=r["files"], wall=round(r["wall"], 1)) for r in res],
                 notes=notes, wall=time.time() - t_start, workers=min(jobs, len(TARGETS)), known_lines=known_lines, known_hits=known_hits,
                 failures=failures)
+
+
+# ---------------------------------------------------------------------------
+# behind the cryptography: scripted peers that hold the keys send MALFORMED but correctly protected handshake messages and application
+# records (TLS 1.3 after ServerHello, Finished and everything after ChangeCipherSpec in TLS 1.2 / TLCP), which byte-level mutation of
+# the stream can never reach.  Hypothesis sub-check on the gcc ASan build (vlib/peerfuzz.py, props/c06x/peerfuzz.py).
+from props.c06x import peerfuzz as _peerfuzz
+_peerfuzz.register(P)
